@@ -50,9 +50,9 @@ pub fn front_contract(src: &[u8], expect: &str, min_line: u32, classify_inproc: 
         // bound (`fib(n - - 1)`): what it does at run time is not the front
         // end's doing. A crash counts here only if the in-process lexer and
         // parser do not come back with "accepted" either.
-        if std::str::from_utf8(src).is_ok() && worker_available() && contains(&o.err, b"overflowed its stack") {
+        if std::str::from_utf8(src).is_ok() && worker_available() {
             if let Ok(FrontRes::Accepted) = inproc_front(src) {
-                return Ok("accepted, exhausts the stack at run time (not judged)");
+                return Ok("accepted, fails at run time (not judged here: C02)");
             }
         }
         return Err(format!("crash: {}", o.brief()));
